@@ -56,6 +56,7 @@ type glGroup struct {
 	hoist   bool              // give the locals declared inside a loop body their zero value before the loop (one environment shape for proofs; dead stores in Go terms)
 	devirt  map[string]string // interface type name -> the one translated type whose methods its calls resolve to
 	more    []glGroup         // further packages translated into the same file (their pkgDir/prefix/funcs/externs)
+	ignore  []string          // functions whose calls (as statements) are dropped: logging
 	recvArg bool              // an interface-method oracle receives the receiver value as its first argument
 	consts  map[string]string // integer constants of third-party packages (not type-checked here): "pkg.Name" -> value
 }
@@ -832,6 +833,9 @@ func (t *glTr) zero(n ast.Node, ty types.Type) string {
 		if isIntType(u.Elem()) {
 			return "ENilSlice"
 		}
+		if _, ok := u.Elem().Underlying().(*types.Struct); ok {
+			return "EBuiltin \"makev\" []" // the nil slice of struct values: the empty list
+		}
 	case *types.Array:
 		if isIntType(u.Elem()) {
 			return fmt.Sprintf("EBuiltin \"make\" [EInt %d]", u.Len())
@@ -1055,6 +1059,11 @@ func (t *glTr) expr(c *glCtx, e ast.Expr) string {
 			if arr, ok := ty.Underlying().(*types.Array); ok && isIntType(arr.Elem()) && len(x.Elts) == 0 {
 				return fmt.Sprintf("EBuiltin \"make\" [EInt %d]", arr.Len())
 			}
+			if sl, ok := ty.Underlying().(*types.Slice); ok && len(x.Elts) == 0 {
+				if _, ok := sl.Elem().Underlying().(*types.Struct); ok {
+					return "EBuiltin \"makev\" []"
+				}
+			}
 			// [n]T{e0, ..., e(n-1)} / []T{e0, ...} of integers, all elements given positionally
 			if isIntSeq(ty) {
 				full := true
@@ -1168,6 +1177,11 @@ func (t *glTr) callExpr(c *glCtx, x *ast.CallExpr) string {
 				t.fail(x, "len of an expression without type")
 			}
 		} else {
+			if sl, ok := aty.Underlying().(*types.Slice); ok {
+				if _, ok := sl.Elem().Underlying().(*types.Struct); ok {
+					return "ELenV (" + arg(0) + ")"
+				}
+			}
 			switch aty.Underlying().(type) {
 			case *types.Slice, *types.Array:
 			default:
@@ -1579,6 +1593,11 @@ func (t *glTr) stmt(fn *glFn, s ast.Stmt) string {
 			t.fail(s, "expression statement")
 		}
 		name := t.callName(call)
+		for _, ig := range t.g.ignore {
+			if name == ig {
+				return "SSkip" // logging: its operands are not evaluated by the model
+			}
+		}
 		switch {
 		case name == "panic":
 			return "SPanic"
@@ -1800,6 +1819,17 @@ func (t *glTr) stmt(fn *glFn, s ast.Stmt) string {
 		if x.Init != nil {
 			pre = append(pre, t.stmt(fn, x.Init))
 		}
+		// `if A || B { body }` (no else) whose B calls something: B is evaluated only when A does not hold, so it becomes
+		// if A { body } else { <calls of B>; if B { body } }   (the body is duplicated)
+		if be, ok := x.Cond.(*ast.BinaryExpr); ok && be.Op == token.LOR && x.Else == nil && glHasCall(be.Y) {
+			condA := t.expr(c, be.X)
+			preA := append(pre, c.pre...)
+			thenS := t.block(fn, x.Body.List)
+			c2 := &glCtx{fn: fn}
+			condB := t.expr(c2, be.Y)
+			inner := glSeq(append(append([]string{}, c2.pre...), fmt.Sprintf("SIf (%s)\n(%s)\n(SSkip)", condB, thenS)))
+			return glSeq(append(preA, fmt.Sprintf("SIf (%s)\n(%s)\n(%s)", condA, thenS, inner)))
+		}
 		// `if A && B { body }` (no else) whose B calls something: B is evaluated only when A holds, so it becomes
 		// if A { <calls of B>; if B { body } }
 		if be, ok := x.Cond.(*ast.BinaryExpr); ok && be.Op == token.LAND && x.Else == nil && glHasCall(be.Y) {
@@ -1839,8 +1869,16 @@ func (t *glTr) stmt(fn *glFn, s ast.Stmt) string {
 	case *ast.RangeStmt:
 		// for i, v := range xs  over an integer slice / array: xs is evaluated once (as in Go); the body may assign
 		// neither xs (when it is a variable) nor the key variable
+		valueList := false
 		if !isIntSeq(t.p.info.TypeOf(x.X)) {
-			t.fail(s, "range over %s", t.p.info.TypeOf(x.X))
+			if sl, ok := t.p.info.TypeOf(x.X).Underlying().(*types.Slice); ok {
+				if _, ok := sl.Elem().Underlying().(*types.Struct); ok {
+					valueList = true // a slice of struct values: the list of its values
+				}
+			}
+			if !valueList {
+				t.fail(s, "range over %s", t.p.info.TypeOf(x.X))
+			}
 		}
 		if x.Tok != token.DEFINE {
 			t.fail(s, "range with assignment to existing variables")
@@ -1894,7 +1932,11 @@ func (t *glTr) stmt(fn *glFn, s ast.Stmt) string {
 		if x.Value != nil {
 			if v, ok := x.Value.(*ast.Ident); ok && v.Name != "_" {
 				t.declare(fn, v)
-				bodyPre = append(bodyPre, fmt.Sprintf("SAssign (LVar %s) (EIndex (EVar %s) (EVar %s))", glStr(t.idName(fn, v)), glStr(seqName), glStr(iname)))
+				ix := "EIndex"
+				if valueList {
+					ix = "EIndexV"
+				}
+				bodyPre = append(bodyPre, fmt.Sprintf("SAssign (LVar %s) (%s (EVar %s) (EVar %s))", glStr(t.idName(fn, v)), ix, glStr(seqName), glStr(iname)))
 			}
 		}
 		if t.g.hoist {
@@ -1905,7 +1947,11 @@ func (t *glTr) stmt(fn *glFn, s ast.Stmt) string {
 		pre = append(pre, t.loopLocals(fn, x.Body)...)
 		body := glSeq(append(bodyPre, t.block(fn, x.Body.List)))
 		init := fmt.Sprintf("SAssign (LVar %s) (EInt 0)", glStr(iname))
-		cond := fmt.Sprintf("ECmp CLt (EVar %s) (ELen (EVar %s))", glStr(iname), glStr(seqName))
+		lenOp := "ELen"
+		if valueList {
+			lenOp = "ELenV"
+		}
+		cond := fmt.Sprintf("ECmp CLt (EVar %s) (%s (EVar %s))", glStr(iname), lenOp, glStr(seqName))
 		post := fmt.Sprintf("SAssign (LVar %s) (EBin OAdd I64 (EVar %s) (EInt 1))", glStr(iname), glStr(iname))
 		return glSeq(append(pre, init, fmt.Sprintf("SFor (%s)\n(%s)\n(%s)", cond, post, body)))
 	case *ast.BranchStmt:
